@@ -24,14 +24,16 @@ import (
 )
 
 type radiusOp struct {
-	NodeIdx int
-	Via     string // "ping" (through the talk handler) or "pong" (through the pong processor)
-	Type    string // "clientinfo", "basic", "history", "error", "unknown"
-	RClass  string // "max", "zero", "cover", "nocover", "random"
-	RSeed   uint32
-	Corrupt bool // payload truncated: must be ignored
-	NoWait  bool // do not wait for the asynchronous ping processing before the next op (back-to-back pings)
-	SeqBump bool // (scripted peers only) the message announces a newer record than the table holds; the node's request for it fails
+	NodeIdx  int
+	Via      string // "ping" (through the talk handler) or "pong" (through the pong processor)
+	Type     string // "clientinfo", "basic", "history", "error", "unknown"
+	RClass   string // "max", "zero", "cover", "nocover", "random"
+	RSeed    uint32
+	Corrupt  bool   // payload truncated: must be ignored
+	NoWait   bool   // do not wait for the asynchronous ping processing before the next op (back-to-back pings)
+	AddEnr   bool   // instead of a radius report: the operator adds the node's record by hand again (RPC AddEnr); a node that is in the table keeps the radius it reported, or none
+	SetLocal uint32 // != 0: before this op the local store's radius changes to this value (shifted left by 200 bits)
+	SeqBump  bool   // (scripted peers only) the message announces a newer record than the table holds; the node's request for it fails
 }
 
 type c20Plan struct {
@@ -130,6 +132,12 @@ func genC20(t *rapid.T) c20Plan {
 			RSeed:   rapid.Uint32().Draw(t, "rseed"),
 			Corrupt: rapid.IntRange(0, 11).Draw(t, "corrupt") == 0,
 			NoWait:  rapid.IntRange(0, 9).Draw(t, "nowait") == 0}
+		if rapid.IntRange(0, 11).Draw(t, "addenr") == 0 {
+			ops[i].AddEnr = true
+		}
+		if rapid.IntRange(0, 9).Draw(t, "setlocal") == 0 {
+			ops[i].SetLocal = rapid.Uint32Range(1, 1<<31).Draw(t, "newLocalRadius")
+		}
 		if scripted > 0 && rapid.IntRange(0, 2).Draw(t, "toScripted") == 0 {
 			ops[i].NodeIdx = len(table) + rapid.IntRange(0, scripted-1).Draw(t, "snode")
 		}
@@ -322,6 +330,28 @@ func runC20(p c20Plan, c *stats.Case) error {
 		enrSeq := uint64(1)
 		if op.SeqBump && op.NodeIdx >= len(p.Table) {
 			enrSeq = n.Seq() + 5
+		}
+		if op.SetLocal != 0 {
+			if ms, ok := l.Store.(*pp.MemStore); ok {
+				ms.SetRadius(new(uint256.Int).Lsh(uint256.NewInt(uint64(op.SetLocal)), 200))
+				c.NT("local-radius-changed-between-two-pongs")
+			}
+		}
+		if op.AddEnr {
+			if !present[id] {
+				continue // a record that is new to the table gets the default radius from AddEnr: outside the statement
+			}
+			if outstanding || len(pendingPing[id]) > 0 {
+				continue // ping processing still under way: judged by the ops around it
+			}
+			l.P.AddEnr(n)
+			want, known := model[id]
+			got, ok := waitRadius(l.P, id, want, known)
+			if ok != known || (known && !bytes.Equal(got, want)) {
+				return fmt.Errorf("op %d: the record of table node %x was added by hand again: radius cache now holds %x (present %v), the node's last reported radius is %x (reported at all: %v)", k, id[:4], got, ok, want, known)
+			}
+			c.NT("record-of-a-table-node-added-by-hand-again")
+			continue
 		}
 		typ, carries := supportedType(p.Network, op.Type)
 		dist := xorDist(id[:], contentID)
